@@ -269,3 +269,21 @@ func init() {
 		return IfaceVal{T: mkLzwR, V: markerCell(args[0], SliceVal{Nil: true}, BV(8, 0))}
 	})
 }
+
+func init() {
+	// vIsSealed(buf, key, ad): buf is [version][nonce(12)][ciphertext] of a recorded Seal under key with ad.
+	vreg("vIsSealed", func(p *Path, th *thread, caller *frame, pos token.Pos, fn *ssa.Function, args []Value) Value {
+		buf, key, ad := bytesOf(args[0]), bytesOf(args[1]), bytesOf(args[2])
+		if len(buf) < 1+12+16 {
+			return tFalse
+		}
+		r := tFalse
+		for _, s := range p.sealsT {
+			if len(s.ct) != len(buf)-13 {
+				continue
+			}
+			r = Or(r, And(And(termsEq(s.key, key), termsEq(s.ad, ad)), And(termsEq(s.nonce, buf[1:13]), termsEq(s.ct, buf[13:]))))
+		}
+		return r
+	})
+}
